@@ -3,7 +3,7 @@ C01 main theorem, fragment F2: `expand_recursive_edge` on ONE context, in the fo
 needs.  Built on `Proofs/RecDfs.lean` (piggy-backed expansion = gated pre-order DFS).
 -/
 import TrustfallModel.Proofs.RecDfs
-import TrustfallModel.Proofs.InterpSpec.Stages
+import TrustfallModel.Proofs.InterpSpec3.Stages
 
 namespace TF.InterpSpec
 open TF TF.Engine TF.Spec
@@ -146,8 +146,9 @@ def recPrep (c : Ctx) : Ctx :=
 theorem recPrep_vertices (c : Ctx) : (recPrep c).vertices = c.vertices := by
   unfold recPrep; split <;> rfl
 
-theorem recPrep_ext (c : Ctx) : Ext c (recPrep c) [] := by
-  refine ⟨[], by simp [recPrep_vertices], rfl, ?_, ?_, ?_, ?_⟩ <;> (unfold recPrep; split <;> rfl)
+theorem recPrep_ext (c : Ctx) : Ext c (recPrep c) := by
+  refine ⟨⟨[], by simp [recPrep_vertices]⟩, ⟨[], ?_⟩, ⟨[], ?_⟩, ?_, ?_⟩ <;>
+    (unfold recPrep; split <;> simp)
 
 theorem recInit_eq (e : IREdge) (c : Ctx) {v : Option VertexId}
     (h : c.vertexAt? e.fromVid = some v) : recInit e c = .ok { recPrep c with active := v } := by
@@ -157,12 +158,14 @@ theorem recInit_eq (e : IREdge) (c : Ctx) {v : Option VertexId}
 
 /-- A `@recurse` edge stage on one context: every vertex of the declarative `reach`, in order (or
 the missing scope once), then the entry into the destination vertex. -/
-theorem stageO_rec (W : World) (e : IREdge) (r : Recursive) (c : Ctx) {fromV toV : IRVertex}
+theorem stageO_rec (W : World) (fuel : Nat) (e : IREdge) (r : Recursive) (c : Ctx)
+    {fromV toV : IRVertex}
     (hf : W.comp.vertex? e.fromVid = some fromV) (ht : W.comp.vertex? e.toVid = some toV)
     (hrec : e.recursive = some r) {v : Option VertexId} (h : c.vertexAt? e.fromVid = some v)
     (hact : v = none → c.active = none) (hd : 1 ≤ r.depth) (hconv : RecConv W.D e r)
     (h0 : enterVertex W.env W.comp toV [] = .ok []) :
-    ∃ c1, Ext c c1 [] ∧ stageO W e c =
+    ∃ c1, Ext c c1 ∧ c1.vertices = c.vertices ∧ c1.foldCounts = c.foldCounts ∧
+      c1.foldedValues = c.foldedValues ∧ stageO W fuel (.edge e) c =
       flatMapO (fun s => (enterVertex W.env W.comp toV [{ c1 with active := s }]).toOption)
         (recScopes W.D e r v) := by
   have hhom := fun l => Hom.eq_flatMapO (enterVertex_hom W.env W.comp toV) (by simp [h0]) l
@@ -174,7 +177,7 @@ theorem stageO_rec (W : World) (e : IREdge) (r : Recursive) (c : Ctx) {fromV toV
   cases v with
   | none =>
     have hca := hact rfl
-    refine ⟨c, Ext.refl c, ?_⟩
+    refine ⟨c, Ext.refl c, rfl, rfl, rfl, ?_⟩
     have hs : ({ recPrep c with active := none } : Ctx).suspended = none :: c.suspended := by
       simp [recPrep, hca]
     rw [recFinish_none W e r fromV toV _ rfl c.suspended hs, R.bind_ok, hhom]
@@ -184,7 +187,8 @@ theorem stageO_rec (W : World) (e : IREdge) (r : Recursive) (c : Ctx) {fromV toV
       simp [recPrep, hca]
     rw [this]
   | some x =>
-    refine ⟨recPrep c, recPrep_ext c, ?_⟩
+    refine ⟨recPrep c, recPrep_ext c, recPrep_vertices c, by unfold recPrep; split <;> rfl,
+      by unfold recPrep; split <;> rfl, ?_⟩
     rw [recFinish_some W e r fromV toV _ x rfl hd hconv, R.bind_ok, hhom]
     simp only [recScopes, flatMapO_map]
 
